@@ -220,11 +220,31 @@ func (s *pairSys) values(c fsx.Call, lr, wr result) (lv, wv string, compare bool
 	case "ReadDir", "ReadFile":
 		return lr.Val, wr.Val, true
 	case "Readlink":
-		return s.l.v.ToSlash(lr.Val), s.w.v.ToSlash(wr.Val), true
+		// an absolute target is spelled with the instance's volume and separator
+		norm := func(sd *side, t string) string {
+			if sd.v.IsAbs(t) {
+				return "abs:" + sd.normPath(t)
+			}
+
+			return sd.v.ToSlash(t)
+		}
+
+		return norm(s.l, lr.Val), norm(s.w, wr.Val), true
 	case "EvalSymlinks", "CreateTemp", "MkdirTemp":
 		return s.l.normPath(lr.Val), s.w.normPath(wr.Val), true
 	case "Stat", "Lstat":
-		return statVal(lr.Val), statVal(wr.Val), true
+		lv, wv = statVal(lr.Val), statVal(wr.Val)
+
+		// the size of a symbolic link is the length of its target, which is not
+		// comparable when the target is absolute (volume on one side only)
+		if c.Op == "Lstat" && strings.Contains(" "+lv+" ", " l ") && strings.Contains(" "+wv+" ", " l ") {
+			lt, _ := s.l.v.Readlink(s.l.concrete(c).A)
+			if s.l.v.IsAbs(lt) {
+				lv, wv = szRe.ReplaceAllString(lv, " sz=abs"), szRe.ReplaceAllString(wv, " sz=abs")
+			}
+		}
+
+		return lv, wv, true
 	}
 
 	return "", "", false
@@ -356,8 +376,8 @@ func sameClass(dump []string, a, b string) bool {
 }
 
 // buildOps is the alphabet of part (C), in portable form. No Chown, Lchown,
-// Chmod (documented as OS-specific); no absolute link targets (an absolute path
-// of one OS is not a portable operand).
+// Chmod (documented as OS-specific); absolute link targets are written in
+// portable form and translated per instance.
 func buildOps(kind, tier string) []fsx.Call {
 	abs := []string{"/", "/a", "/b", "/a/a", "/a/b", "/b/a", "/b/b"}
 	rel := []string{"a", "b"}
@@ -432,9 +452,11 @@ func buildOps(kind, tier string) []fsx.Call {
 	}
 
 	if kind == "MemFS" {
-		targets := []string{"a", "../b", "nope"}
+		// "/a" and "/nope" are absolute in the instance's own spelling (Linux
+		// "/a", Windows `C:\a`): concrete() translates the target like any operand
+		targets := []string{"a", "../b", "nope", "/a", "/nope"}
 		if tier == "thorough" {
-			targets = append(targets, "b", "a/b")
+			targets = append(targets, "b", "a/b", "/b/a")
 		}
 
 		for _, t := range targets {
